@@ -55,7 +55,7 @@ Fixpoint escape_path (s : bytes) : bytes :=
   match s with
   | [] => []
   | c :: r => if path_safe c then c :: escape_path r
-              else 37 :: hexdig (c / 16) :: hexdig (c mod 16) :: escape_path r
+              else 37 :: hexdig ((c / 16) mod 16) :: hexdig (c mod 16) :: escape_path r
   end.
 
 (* ---- http.Redirect(w, r, url, code): the Location header it sets (query part left out) ----
@@ -276,6 +276,19 @@ Definition same_origin (loc : bytes) : bool :=
   | [] => true
   | c :: r => (c =? SLASH) && match r with d :: _ => negb (d =? SLASH) && negb (d =? 92) | [] => true end
   end.
+
+(* starts with exactly one '/' *)
+Definition one_slash (p : bytes) : bool :=
+  match p with
+  | c :: r => (c =? SLASH) && match r with d :: _ => negb (d =? SLASH) | [] => true end
+  | [] => false
+  end.
+
+(* hypothesis of the partial never-hidden theorem: no hidden file is reachable under a name
+   q ++ ext, ext the extension of a static encoding *)
+Definition no_hidden_sibling (fs : fsys) (hide : list bytes) : Prop :=
+  forall q e ext m, In (e, ext) gen_static_encodings -> fs_open fs (q ++ ext) = Some m ->
+                    is_hidden fs hide m = false.
 
 (* the files a plain answer to [req] may consist of: the file the cleaned path names, an index
    page of that directory, or a precompressed sibling of one of these that the client accepts *)
